@@ -216,13 +216,25 @@ pub fn c05(o: &Opts) -> Outcome {
         let recs: Vec<Vec<u8>> = inp["records"].split('|').map(unshow).collect();
         return Outcome { cases: 1, witness: one(&recs, inp["k"].parse().unwrap(), inp["norm"] == "true", inp["threads"].parse().unwrap(), inp["mem"].parse().unwrap(), inp["header"] == "true", &inp["delim"]) };
     }
+    // many short records, many workers: a row claimed by anything but the record's own ordinal shows up here
+    for rep in 0..(if o.thorough { 12 } else { 3 }) {
+        let recs: Vec<Vec<u8>> = (0..20000).map(|i| { let l = 4 + (i % 7) as usize; random_seq(&mut rng, l, 0) }).collect();
+        for threads in [8usize, 2] {
+            cases += 1;
+            if let Some(mut w) = one(&recs, 2, true, threads, 4 << 30, rep % 2 == 0, " ") {
+                // keep the witness small in the report
+                for kv in w.iter_mut() { if kv.0 == "records" { kv.1 = format!("<{} random records of 4..10 bases, seed-derived>", recs.len()); } }
+                return Outcome { cases, witness: Some(w) };
+            }
+        }
+    }
     for round in 0..(if o.thorough { 60 } else { 10 }) {
         let n = 1 + rng.below(if round % 3 == 0 { 300 } else { 12 }) as usize;
         let recs: Vec<Vec<u8>> = (0..n).map(|_| { let l = 1 + rng.below(150) as usize; random_seq(&mut rng, l, 10).iter().map(|&b| if b < 0x21 || b > 0x7e || b == b'>' { b'N' } else { b }).collect() }).collect();
         let k = 1 + (round % 4) as usize;
         for norm in [true, false] {
             for threads in [1usize, 3, 16] {
-                for mem in [1usize, 200, 4 << 30] {
+                for mem in [1usize, 40, 90, 200, 4 << 30] {
                     let header = rng.below(2) == 0;
                     let delim = [" ", ",", "\t"][rng.below(3) as usize];
                     cases += 1;
